@@ -690,6 +690,10 @@ class PortNamespace(collections.abc.MutableMapping, Port):
                     default = port.default
                     if callable(default):
                         port_value = default()
+                    elif isinstance(port, PortNamespace):
+                        # The value of a namespace is filled in place below: work on a copy of the (nested) dictionaries
+                        # of the default, which is shared by all processes of the class
+                        port_value = _copy_dictionaries(default)
                     else:
                         port_value = default
 
@@ -791,6 +795,13 @@ class PortNamespace(collections.abc.MutableMapping, Port):
                 stripped.append(rule[len(prefix) :])
 
         return stripped
+
+
+def _copy_dictionaries(value: Any) -> Any:
+    """Recursively copy the (nested) dictionaries of ``value``, but not the values they contain."""
+    if isinstance(value, dict):
+        return {key: _copy_dictionaries(subvalue) for key, subvalue in value.items()}
+    return value
 
 
 def breadcrumbs_to_port(breadcrumbs: Sequence[str]) -> str:
